@@ -121,6 +121,9 @@ def evaluate(chk, jobs, res, prop):
             # the recorded/generated horizon is too short for the supervisor to have a single vertex: there is no partition to schedule, and
             # supergraph says so with an explicit assertion - a rejected degenerate input, outside the property's domain
             if "No leaf nodes of kind" in ge: chk.feat("rejected:no-supervisor-vertex"); continue
+            # the same degenerate input on the prune=False path (to_connected_graph indexes the last supervisor vertex first: IndexError)
+            if r.get("raw") and any(not [v for v in e["verts"][cfg["sup"]] if v[0] >= 0] for e in r["raw"]):
+                chk.feat("rejected:no-supervisor-vertex"); continue
             if j.get("expect_reject"):
                 chk.case(key, ["too-small-buffer-rejected"], None); continue
             chk.case(key, ["graph-error"], None)
